@@ -199,6 +199,8 @@ type arenaSubject struct {
 	spare int
 	mode  int
 	err   string
+	owned []ownedBuf // keys the tree may refer to (pass-through codec): kept alive, never reused, checked for writes
+	keep  bool
 	Calls int
 	Spare int // calls that had spare capacity holding live data
 }
@@ -265,12 +267,48 @@ func (a *arenaSubject) with(keys [][]byte, f func(ks [][]byte)) {
 			}
 		}
 	}
+	a.checkOwned()
 	// the caller now reuses its buffer for something else
 	a.gen++
 	a.fill(0)
 }
 
+type ownedBuf struct{ buf, snap []byte }
+
+// checkOwned: the buffers of inserted keys (kept alive for a pass-through codec) are still what the caller wrote.
+func (a *arenaSubject) checkOwned() {
+	for _, o := range a.owned {
+		if !bytes.Equal(o.buf, o.snap) && a.err == "" {
+			for i := range o.buf {
+				if o.buf[i] != o.snap[i] {
+					a.err = fmt.Sprintf("a call wrote to the buffer of an earlier Insert key argument (%d key bytes + spare capacity %d): byte %d changed from %#02x to %#02x",
+						len(o.buf)-(cap(o.buf)-len(o.buf)), cap(o.buf)-len(o.buf), i, o.snap[i], o.buf[i])
+					break
+				}
+			}
+		}
+	}
+}
+
 func (a *arenaSubject) Insert(k []byte, v int) {
+	if a.keep {
+		// the codec hands the caller's slice to the tree: this key gets a buffer of its own (with spare
+		// capacity holding live data) that the caller never touches again
+		buf := make([]byte, len(k)+a.spare)
+		for i := range buf {
+			buf[i] = 0x80 | (byte(len(a.owned))*37+byte(i)*11)&0x7f
+		}
+		copy(buf, k)
+		snap := clone(buf)
+		a.Calls++
+		if a.spare > 0 {
+			a.Spare++
+		}
+		a.t.Insert(buf[:len(k):len(buf)], v)
+		a.owned = append(a.owned, ownedBuf{buf, snap})
+		a.checkOwned()
+		return
+	}
 	a.with([][]byte{k}, func(ks [][]byte) { a.t.Insert(ks[0], v) })
 }
 func (a *arenaSubject) Search(k []byte) (v int, ok bool) {
@@ -330,6 +368,9 @@ func newArenaSubject(k Kind) *arenaSubject {
 		} else {
 			a.t = art.NewCollationSortedTree[[]byte, int](art.WithCollator[[]byte, int](CollatorConfigs[kk.cfg]()))
 		}
+	case *rawCmpKind:
+		a.t = art.NewCompoundTree[[]byte, int](art.AlphabeticalOrderKey[[]byte]{})
+		a.keep = true
 	default:
 		panic("arena subject needs a []byte-keyed kind")
 	}
